@@ -223,6 +223,46 @@ def _call(args):
         return r
 
 
+class Pooled:
+    """wraps a shard function: the shard runs with object pooling on (space.POOL): model and reconstruction objects are reused across all
+    the cases of the shard instead of being rebuilt for each one.  The oracles are unchanged, so a value that is only wrong because an object
+    remembers something from an earlier case (stale cache keyed on too little) is reported; such a report is replayed by re-running the whole
+    shard, since a single case on fresh objects would not show it."""
+
+    def __init__(self, fn):
+        self.fn = fn
+        self.__name__ = "pooled:" + fn.__name__
+        self.__module__ = fn.__module__
+
+    def __call__(self, shard):
+        import base64
+        import pickle
+        from . import space
+        space.pool_reset(True)
+        try:
+            r = self.fn(shard)
+        finally:
+            space.pool_reset(False)
+        pk = base64.b64encode(pickle.dumps(shard)).decode()
+        for v in r.viols:
+            v["site"] = v["site"].replace("/", "/reused-objects/", 1)
+            v["what"] += " [objects (model, reconstruction) reused across the cases of the shard]"
+            v["case"] = {"kind": "shard-replay", "module": self.fn.__module__, "fn": self.fn.__name__, "shard_pickle": pk, "pooled": True}
+        r.nviol = collections.Counter({k.replace("/", "/reused-objects/", 1): n for k, n in r.nviol.items()})
+        return r
+
+
+def replay_shard(case):
+    import base64
+    import importlib
+    import pickle
+    fn = getattr(importlib.import_module(case["module"]), case["fn"])
+    if case.get("pooled"):
+        fn = Pooled(fn)
+    out = _call((fn, pickle.loads(base64.b64decode(case["shard_pickle"]))))
+    return [(v["site"], v["what"]) for v in out.viols]
+
+
 def replay_shard_exception(case):
     import base64
     import importlib
@@ -314,7 +354,7 @@ def finish(ctx, module, level, rule, assumptions, extra_cov=None):
             continue
         # every candidate is re-executed twice on fresh objects before it is believed
         try:
-            rp = replay_shard_exception if v["case"].get("kind") == "shard-exception" else module.replay
+            rp = {"shard-exception": replay_shard_exception, "shard-replay": replay_shard}.get(v["case"].get("kind"), module.replay)
             r1 = rp(unfloat(v["case"]))
             r2 = rp(unfloat(v["case"]))
         except Exception as e:  # pragma: no cover
